@@ -1,8 +1,11 @@
 // C12 — the key ring accepts a signature only from a fetched key valid at that time.
 // (A) deviation-bounded DFS over batches x database states x fetcher behaviours x
-//     timestamps x validity rule through the real KeyRing.VerifyJSONs;
+//
+//	timestamps x validity rule through the real KeyRing.VerifyJSONs;
+//
 // (B) full product for CheckKeys; (C) DirectKeyFetcher and (D) PerspectiveKeyFetcher
-//     over a scripted KeyClient with response faults. Virtual clock (instrumented build).
+//
+//	over a scripted KeyClient with response faults. Virtual clock (instrumented build).
 package main
 
 import (
@@ -74,15 +77,15 @@ type reqSpec struct {
 }
 
 type scenario struct {
-	Reqs      []reqSpec
-	DB        [2][2]int // per server, kid: state index into dbStates
-	Fetchers  []int     // behaviour index into fetcherModes
-	Strict    bool
+	Reqs                   []reqSpec
+	DB                     [2][2]int // per server, kid: state index into dbStates
+	Fetchers               []int     // behaviour index into fetcherModes
+	Strict                 bool
 	DBFetchErr, DBStoreErr bool
 }
 
 var dbStates = []string{"current", "absent", "stale", "expired", "wrongkey", "farfuture"}
-var fetcherModes = []string{"right", "error", "empty", "wrong", "partial", "extra"}
+var fetcherModes = []string{"right", "error", "empty", "wrong", "partial", "extra", "stale", "older"}
 var atMenu = []int64{N - 3_600_000, E - 1, E, N - 1000, N - 999, N + day, N + day + 1, N + 7*day, N + 7*day + 1}
 
 func dbEntry(s, k string, state int) (lres, bool) {
@@ -117,12 +120,19 @@ func fetcherAnswer(mode int, asked map[lr]spec.Timestamp) (map[lr]lres, error) {
 		return nil, errors.New("scripted fetcher error")
 	case "empty":
 		return out, nil
-	case "right", "wrong", "partial":
+	case "right", "wrong", "partial", "stale", "older":
 		for rq := range asked {
 			if fetcherModes[mode] == "partial" && string(rq.KeyID) != kids[0] {
 				continue
 			}
-			out[rq] = fresh(string(rq.ServerName), string(rq.KeyID), fetcherModes[mode] == "wrong")
+			res := fresh(string(rq.ServerName), string(rq.KeyID), fetcherModes[mode] == "wrong")
+			switch fetcherModes[mode] {
+			case "stale": // the right key, no longer valid now but valid for timestamps up to a second ago
+				res.ValidUntilTS = spec.Timestamp(N - 1000)
+			case "older": // an older copy: valid only up to a day ago
+				res.ValidUntilTS = spec.Timestamp(N - day)
+			}
+			out[rq] = res
 		}
 	case "extra":
 		for _, s := range srvs {
@@ -136,12 +146,12 @@ func fetcherAnswer(mode int, asked map[lr]spec.Timestamp) (map[lr]lres, error) {
 }
 
 type trace struct {
-	mu          sync.Mutex
-	dbAsked     []map[lr]spec.Timestamp
-	fetchAsked  [][]lr // per fetcher call: which keys
-	fetchWho    []int
-	fetchGave   []map[lr]lres
-	stored      []map[lr]lres
+	mu         sync.Mutex
+	dbAsked    []map[lr]spec.Timestamp
+	fetchAsked [][]lr // per fetcher call: which keys
+	fetchWho   []int
+	fetchGave  []map[lr]lres
+	stored     []map[lr]lres
 }
 
 type scriptDB struct {
@@ -249,7 +259,7 @@ func reference(sc *scenario) (must, may []bool, err bool, refetch map[lr]bool) {
 	if sc.DBFetchErr {
 		return must, may, true, nil
 	}
-	final := map[lr]lres{}  // keys by the reference acquisition order, solicited answers only
+	final := map[lr]lres{}    // keys by the reference acquisition order, solicited answers only
 	anySup := map[lr][]lres{} // every key anybody supplied for that (server, key ID)
 	refetch = map[lr]bool{}
 	for w := range wanted {
@@ -764,7 +774,7 @@ func main() { harness.Main("C12", "fault_enumeration", run) }
 
 func run(r *harness.Run) {
 	verifhook.Clock = func() time.Time { return vnow }
-	r.Rule("(A) deviation-bounded DFS (bound B) from the nominal scenario over: batch of 1-2 requests (server, per-key-ID signature none/valid/made-by-other-key for two ed25519 IDs, an rsa signature, timestamp from a 9-point boundary menu), database state per (server,key) in {current, absent, stale, expired, wrong key, valid far in the future}, two fetchers each in {right, error, empty, wrong key, partial, extra unsolicited keys}, strict/lenient rule, database fetch/store errors, with the real KeyRing under a virtual clock; oracle = reference acquisition model (soundness: success only under a supplied key that verifies and was valid at the timestamp; completeness: success whenever database / first answering fetcher supplies one) + call-trace clauses (fetchers only asked for absent/stale keys, in order, fetched keys stored). (B) full product for CheckKeys. (C) DirectKeyFetcher: every assignment of direct/notary response modes to 3 servers + local name. (D) PerspectiveKeyFetcher: every list of <=3 entries over 6 entry modes. Non-trivial = distinct scenario.")
+	r.Rule("(A) deviation-bounded DFS (bound B) from the nominal scenario over: batch of 1-2 requests (server, per-key-ID signature none/valid/made-by-other-key for two ed25519 IDs, an rsa signature, timestamp from a 9-point boundary menu), database state per (server,key) in {current, absent, stale, expired, wrong key, valid far in the future}, two fetchers each in {right, error, empty, wrong key, partial, extra unsolicited keys, right key already past its validity, older copy}, strict/lenient rule, database fetch/store errors, with the real KeyRing under a virtual clock; oracle = reference acquisition model (soundness: success only under a supplied key that verifies and was valid at the timestamp; completeness: success whenever database / first answering fetcher supplies one) + call-trace clauses (fetchers only asked for absent/stale keys, in order, fetched keys stored). (B) full product for CheckKeys. (C) DirectKeyFetcher: every assignment of direct/notary response modes to 3 servers + local name. (D) PerspectiveKeyFetcher: every list of <=3 entries over 6 entry modes. Non-trivial = distinct scenario.")
 	r.Assume("ed25519 trusted", "unsolicited keys returned by a fetcher may or may not replace database keys: either verdict is accepted when only such a key decides")
 	r.OnReplay("scenario", func(raw json.RawMessage) error {
 		var sc scenario
